@@ -3,13 +3,13 @@ import JunoModel.C09.Model
 /-!
 Line-protocol driver for the C09 model (`lake build c09drv`). Numbers are hexadecimal.
 
-  cfg W CAP fixCache fixSnap fixPersist   choose the variant, reset to the empty node        -> ok
+  cfg W CAP fixCache fixSnap fixPersist fixInit   choose the variant, reset to the empty node -> ok
   store BLOOM TXS     BLOOM = items `a<addr>` / `k<pos>.<key>` joined by `,` (or `-`)
                       TXS   = `-` | tx `|` tx …; tx = `~` | ev `;` ev …; ev = `<from>` [`:` k `.` k …]   -> ok | err:<e>
   storen N            N blocks without transactions and with an empty bloom                   -> ok | err:<e>
   revert | snap | restart                                                                     -> ok | err:<e>
   storefail | revertfail   a Store / RevertHead whose commit failed: the in-memory filter is reset   -> ok
-  restartfault             restart whose lazy initialisation hits a transient error (remembered)     -> ok
+  restartfault             restart whose lazy initialisation hits a transient error                  -> ok
   restartcrash K           restart that dies after K fill steps of the initialiser, then a restart   -> ok
   tamper del W | tamper mov A B   corrupt the database behind the node's back: delete persisted window W /
                            store window A's filter under key B (ties the notfound / bounds branches)   -> ok
@@ -40,7 +40,7 @@ structure St where
   mark : Node
   saved : Node
 
-def cfg0 : Cfg := ⟨8192, 16, false, false, false⟩
+def cfg0 : Cfg := ⟨8192, 16, false, false, false, false⟩
 
 def hx (n : Nat) : String := natToHex n
 
@@ -111,7 +111,7 @@ def dump (n : Node) : String :=
     | some (a, nx) => s!"{a.from_}/{nx}"
     | none => "none"
   let c := ",".intercalate (n.cache.map (fun x => toString x.1))
-  s!"P=[{p}] S={s} F={effFloor n} R={n.running.from_}/{n.next} C=[{c}] H={n.chain.length}"
+  s!"P=[{p}] S={s} F={dbFloor n} R={n.running.from_}/{n.next} C=[{c}] H={n.chain.length}"
 
 def explain (cfg : Cfg) (n : Node) (b : Nat) : String :=
   let w := b - b % cfg.W
@@ -132,7 +132,7 @@ def explain (cfg : Cfg) (n : Node) (b : Nat) : String :=
 def storeN (cfg : Cfg) : Nat → Node → Node × Option Err
   | 0, n => (n, none)
   | k + 1, n =>
-    match store cfg n ⟨[], []⟩ with
+    match apiStore cfg n ⟨[], []⟩ with
     | (n', none) => storeN cfg k n'
     | r => r
 
@@ -141,25 +141,25 @@ def bool? (s : String) : Option Bool :=
 
 def step (st : St) (line : String) : St × String :=
   match words line with
-  | ["cfg", w, c, a, b, d] =>
-    match hexToNat? w, hexToNat? c, bool? a, bool? b, bool? d with
-    | some w, some c, some a, some b, some d =>
+  | ["cfg", w, c, a, b, d, e] =>
+    match hexToNat? w, hexToNat? c, bool? a, bool? b, bool? d, bool? e with
+    | some w, some c, some a, some b, some d, some e =>
       if w == 0 || c == 0 then (st, "bad-op") else
-      let cfg : Cfg := ⟨w, c, a, b, d⟩
+      let cfg : Cfg := ⟨w, c, a, b, d, e⟩
       (⟨cfg, Node.init, Node.init, st.saved⟩, "ok")
-    | _, _, _, _, _ => (st, "bad-op")
+    | _, _, _, _, _, _ => (st, "bad-op")
   | ["store", bl, ts] =>
     match items? bl, txs? ts with
     | some bl, some ts =>
-      let r := store st.cfg st.node ⟨ts, bl⟩
+      let r := apiStore st.cfg st.node ⟨ts, bl⟩
       ({ st with node := r.1 }, showRes r.2)
     | _, _ => (st, "bad-op")
   | ["storen", k] =>
     match hexToNat? k with
     | some k => let r := storeN st.cfg k st.node; ({ st with node := r.1 }, showRes r.2)
     | none => (st, "bad-op")
-  | ["revert"] => let r := revert st.cfg st.node; ({ st with node := r.1 }, showRes r.2)
-  | ["snap"] => let r := snap st.node; ({ st with node := r.1 }, showRes r.2)
+  | ["revert"] => let r := apiRevert st.cfg st.node; ({ st with node := r.1 }, showRes r.2)
+  | ["snap"] => let r := apiSnap st.cfg st.node; ({ st with node := r.1 }, showRes r.2)
   | ["storefail"] => ({ st with node := reinit st.cfg st.node }, "ok")
   | ["revertfail"] => ({ st with node := reinit st.cfg st.node }, "ok")
   | ["restartcore"] => let r := restartCore st.cfg st.node; ({ st with node := r.1 }, showRes r.2)
@@ -179,7 +179,7 @@ def step (st : St) (line : String) : St × String :=
       | some v => ({ st with node := { st.node with persisted := st.node.persisted.put b v } }, "ok")
       | none => (st, "err:notfound")
     | _, _ => (st, "bad-op")
-  | ["restart"] => let r := restart st.cfg st.node; ({ st with node := r.1 }, showRes r.2)
+  | ["restart"] => let r := restart st.cfg { st.node with coreInit := false }; ({ st with node := r.1 }, showRes r.2)
   | ["prune", k] =>
     match hexToNat? k with
     | some k => ({ st with node := prune st.cfg st.node k }, "ok")
@@ -197,7 +197,7 @@ def step (st : St) (line : String) : St × String :=
           | _, _ => none
       match tok? with
       | some tok =>
-        let r := query st.cfg st.node ⟨a, k⟩ fr to tok ch li
+        let r := apiEvents st.cfg st.node ⟨a, k⟩ fr to tok ch li
         ({ st with node := r.1 }, showPage r.2)
       | none => (st, "bad-op")
     | _, _, _, _, _, _ => (st, "bad-op")
@@ -211,7 +211,7 @@ def step (st : St) (line : String) : St × String :=
           | _, _ => none
       match tok? with
       | some tok =>
-        let r := queryPre st.cfg st.node ⟨a, k⟩ fr to tok ch li base pre
+        let r := apiEventsPre st.cfg st.node ⟨a, k⟩ fr to tok ch li base pre
         ({ st with node := r.1 }, showPage r.2)
       | none => (st, "bad-op")
     | _, _, _, _, _, _, _, _ => (st, "bad-op")
